@@ -278,7 +278,11 @@ def rate_make_cases(ctx, rnd):
                     continue
                 cs.append(dict(op='rate_make', uc='EUR', tc='USD', multv=V('frac' if F(m).denominator != 1 else 'int', m),
                                mult=mult_spec(m), amtv=V(ak, a), amt=qj(a), amtnum=True))
-    cs.append(dict(op='rate_make', uc='EUR', tc='EUR', multv=V('int', 1), mult=mult_spec(1), amtv=V('dec', 2), amt=qj(2), amtnum=True))
+    # identical currencies, however each side is spelt (object / ISO code)
+    for cur in ('EUR', 'HKD'):
+        for (us, ts) in ((False, False), (True, False), (False, True), (True, True)):
+            cs.append(dict(op='rate_make', uc=cur, tc=cur, ucstr=us, tcstr=ts, multv=V('int', 1), mult=mult_spec(1),
+                           amtv=V('dec', 2), amt=qj(2), amtnum=True))
     cs.append(dict(op='rate_make', uc='EUR', tc='USD', multv=V('int', 1), mult=mult_spec(1), amtv=V('str', text='abc'), amt=qj(1), amtnum=False))
     cs.append(dict(op='rate_make', uc='EUR', tc='USD', multv=V('int', 1), mult=mult_spec(1), amtv=V('obj'), amt=qj(1), amtnum=False))
     cs.append(dict(op='rate_make', uc='EUR', tc='USD', multv=V('str', text='1.5'), mult=mult_spec(F(3, 2)), amtv=V('dec', 2), amt=qj(2), amtnum=True))
